@@ -124,9 +124,9 @@ theorem add_refs_length (i : Index) (r : Rec) :
   unfold Index.add
   by_cases hv : (validPos r.start && validPos r.stop) = true
   · by_cases hp : r.placed = true
-    · by_cases h1 : r.rid < (i.refs.length : Int) - 1
-      · left; simp [hv, hp, h1]
-      · by_cases h2 : r.rid < 0
+    · by_cases h2 : r.rid < 0
+      · left; simp [hv, hp, h2]
+      · by_cases h1 : r.rid < (i.refs.length : Int) - 1
         · left; simp [hv, hp, h1, h2]
         · simp only [hv, hp, h1, h2, Bool.not_true, Bool.false_eq_true, if_false]
           split
